@@ -1204,3 +1204,21 @@ func TestContains(t *testing.T) {
 		})
 	}
 }
+
+// The interceptor calls Start from a goroutine of its own; when that goroutine
+// is scheduled only after Unbind or Close stopped the recorder, the recorder
+// must stay stopped.
+func TestStartAfterStopStaysStopped(t *testing.T) {
+	r := newRecorder(1, 90_000, logging.NewDefaultLoggerFactory())
+	r.Stop()
+	r.Start()
+	r.QueueOutgoingRTP(time.Now(), &rtp.Header{SSRC: 1}, []byte{1}, nil)
+	assert.Zero(t, r.GetStats().OutboundRTPStreamStats.PacketsSent)
+
+	r = newRecorder(1, 90_000, logging.NewDefaultLoggerFactory())
+	r.Start()
+	r.QueueOutgoingRTP(time.Now(), &rtp.Header{SSRC: 1}, []byte{1}, nil)
+	r.Stop()
+	r.QueueOutgoingRTP(time.Now(), &rtp.Header{SSRC: 1}, []byte{1}, nil)
+	assert.Equal(t, uint64(1), r.GetStats().OutboundRTPStreamStats.PacketsSent)
+}
